@@ -61,7 +61,9 @@ def cases(draw):
         use = draw(st.sampled_from(USES))
         if use in ('position()', 'last()') and gen_xpath.flag('no_position_in_key_use'):
             use = '@i'
-        decls.append({'name': draw(st.sampled_from(['k1', 'k1', 'k2'])), 'match': p, 'use': use})
+        # the declarations of a key may be spread over import levels (all of them count: XSLT 12.2); module 0 = the main stylesheet,
+        # 1 = imported by it, 2 = imported by module 1
+        decls.append({'name': draw(st.sampled_from(['k1', 'k1', 'k2'])), 'match': p, 'use': use, 'mod': draw(st.sampled_from([0, 0, 0, 1, 1, 2]))})
     lookups = []
     for _ in range(draw(st.integers(3, 10))):
         lk = {'doc': draw(st.integers(0, ndocs - 1)), 'name': draw(st.sampled_from(['k1', 'k1', 'k2'])),
@@ -100,11 +102,33 @@ def esc(s):
             .replace('\n', '&#10;').replace('\t', '&#9;').replace('\r', '&#13;'))
 
 
+HEAD = '<xsl:stylesheet version="1.0" xmlns:xsl="%s" xmlns:p="urn:p" xmlns:q="urn:q" exclude-result-prefixes="p q">' % XSL
+
+
+def key_decl(d):
+    return '<xsl:key name="%s" match="%s" use="%s"/>' % (d['name'], esc(d['match']), esc(d['use']))
+
+
+def modules(case):
+    """-> {file name: text} of the imported modules (empty when every declaration is in the main stylesheet)"""
+    mods = {d.get('mod', 0) for d in case['decls']}
+    out = {}
+    if 2 in mods:
+        out['m2.xsl'] = HEAD + ''.join(key_decl(d) for d in case['decls'] if d.get('mod', 0) == 2) + '</xsl:stylesheet>'
+    if mods & {1, 2}:
+        out['m1.xsl'] = (HEAD + ('<xsl:import href="m2.xsl"/>' if 2 in mods else '') +
+                         ''.join(key_decl(d) for d in case['decls'] if d.get('mod', 0) == 1) + '</xsl:stylesheet>')
+    return out
+
+
 def stylesheet(case, order):
-    parts = ['<xsl:stylesheet version="1.0" xmlns:xsl="%s" xmlns:p="urn:p" xmlns:q="urn:q" exclude-result-prefixes="p q">' % XSL,
-             '<xsl:output method="text"/>']
+    parts = [HEAD]
+    if any(d.get('mod', 0) for d in case['decls']):
+        parts.append('<xsl:import href="m1.xsl"/>')
+    parts.append('<xsl:output method="text"/>')
     for d in case['decls']:
-        parts.append('<xsl:key name="%s" match="%s" use="%s"/>' % (d['name'], esc(d['match']), esc(d['use'])))
+        if d.get('mod', 0) == 0:
+            parts.append(key_decl(d))
     parts.append('<xsl:template match="/">')
     for i in order:
         lk = case['lookups'][i]
@@ -197,6 +221,7 @@ def check(ctx, case):
              (['nodeset-value'] if any(lk['value'] in NSVALUES for lk in case['lookups']) else []),
              sample_text={'decls': case['decls'], 'lookups': case['lookups'][:4], 'doc0': case['docs'][0][:200]})
     res = [('res', 'd%d.xml\0%s' % (i, case['docs'][i])) for i in range(1, len(case['docs']))]
+    res += [('res', '%s\0%s' % kv) for kv in sorted(modules(case).items())]
     n = len(case['lookups'])
     answers = []
     for order in (list(range(n)), list(range(n - 1, -1, -1))):
